@@ -23,6 +23,17 @@ Proof. exact bookkeeping_ok. Qed.
 Theorem C23_no_fault : forall c stack p, wf_C23 c stack p = true -> ~ In EFault (run_C23 c stack p).
 Proof. exact no_fault. Qed.
 
+Theorem C23_value_returned : forall c stack p b,
+  wf_C23 c stack p = true -> In (ERet b) (run_C23 c stack p) -> b = true.
+Proof. exact value_returned. Qed.
+
+(** every callback runs inside the last segment the coroutine reports; one that was moved to a
+    fresh segment has the whole red zone (guard page not counted) *)
+Theorem C23_room : forall c stack p d en grew len inb r,
+  wf_C23 c stack p = true -> In (EGrow d en grew len inb r) (run_C23 c stack p) ->
+  inb = true /\ (grew = true -> r = true).
+Proof. exact room_on_fresh_segment. Qed.
+
 (** "At least the red zone available" also on the path that does not grow: refuted by up to one
     page (the check counts the guard page) ... *)
 Theorem C23_refuted_red_zone_counts_guard_page :
@@ -51,5 +62,7 @@ Proof. repeat split; vm_compute; reflexivity. Qed.
 Print Assumptions C23_bookkeeping_restored.
 Print Assumptions C23_bookkeeping_ok.
 Print Assumptions C23_no_fault.
+Print Assumptions C23_value_returned.
+Print Assumptions C23_room.
 Print Assumptions C23_refuted_red_zone_counts_guard_page.
 Print Assumptions C23_holds_outside.
